@@ -3,3 +3,5 @@
 package mpx
 
 func (s *channelState) verifDirty() int64 { return 0 }
+
+func (c *clientConns) verifLive() int64 { return 0 }
